@@ -581,7 +581,7 @@ class C02Prop(HistProp):
     def oracle(self, c, o):
         msgs = []
         directed, multi = c["spec"][0], c["spec"][1]
-        nodes = edges = None
+        nodes = edges = nrows = None
         # walk ops and observations in lockstep
         it = iter(o)
 
@@ -592,11 +592,13 @@ class C02Prop(HistProp):
                 if op[0] == "snap":
                     blk = [nxt() for _ in range(12)]
                     nodes = [r[0] for r in blk[0][1]]
+                    nrows = [list(r) for r in blk[0][1]]
                     edges = blk[1][1]
                     continue
                 if op[0] == "view":
                     blk = [nxt() for _ in range(2)]
                     nodes = [r[0] for r in blk[0][1]]
+                    nrows = [list(r) for r in blk[0][1]]
                     edges = blk[1][1]
                     continue
                 if op[0] != "q":
@@ -693,10 +695,19 @@ class C02Prop(HistProp):
                         got = sorted(r[0] for r in body[1])
                         if got != want:
                             msgs.append("%s(%d) = %s but the edge list gives %s" % (q, x, got, want))
+                        elif not q.endswith("_names"):
+                            # the nodes handed out are the nodes of get_all_nodes (same attributes)
+                            stale = [list(r) for r in body[1] if len(r) == 3 and list(r) not in nrows]
+                            if stale:
+                                msgs.append("%s(%d) returns node %s, get_all_nodes has %s" % (
+                                    q, x, stale[0], [r for r in nrows if r[0] == stale[0][0]]))
                 elif q == "get_node":
                     b = nxt()
                     if b[0] == 110 and (len(b[1]) == 1) != has(a[0]):
                         msgs.append("get_node(%d) disagrees with get_all_nodes" % a[0])
+                    elif b[0] == 110 and len(b[1]) == 1 and list(b[1][0]) not in nrows:
+                        msgs.append("get_node(%d) returns %s, get_all_nodes has %s" % (
+                            a[0], list(b[1][0]), [r for r in nrows if r[0] == a[0]]))
                 elif q == "has_node":
                     b = nxt()
                     if b[0] == 117 and bool(b[1][0][0]) != has(a[0]):
@@ -730,7 +741,15 @@ class C02Prop(HistProp):
                         first = [r[0] for r in body[1] if r[1] == 1]
                         if sorted(got) != sorted(seen) or first != [x]:
                             msgs.append("breadth_first_search(%d) = %s, reachable set %s" % (x, sorted(got), sorted(seen)))
-                elif q in ("counts", "get_all_node_names", "get_node_by_index"):
+                elif q == "get_node_by_index":
+                    b = nxt()
+                    if b[0] == 123:
+                        i = a[0]
+                        want = [nrows[i]] if 0 <= i < len(nrows) else []
+                        if [list(r) for r in b[1]] != want:
+                            msgs.append("get_node_by_index(%d) = %s, position %d of get_all_nodes is %s" % (
+                                i, [list(r) for r in b[1]], i, want))
+                elif q in ("counts", "get_all_node_names"):
                     nxt()
                 else:
                     return msgs  # unknown query shape: stop the lockstep walk
